@@ -207,10 +207,12 @@ class SourceScope(Scope):
         source = self.source.with_mark(position)
         return SourceScope(source)
 
-    def find_id_loc(self, id, start, shift=0, delimeters=True):
-        # type: (str, loc_t, int, bool) -> loc_t
+    def find_id_loc(self, id, start, shift=0, delimeters=True, end_line=None):
+        # type: (str, loc_t, int, bool, int | None) -> loc_t
         sl, pos = start
-        source = '\n'.join(self.source.lines[sl-1:sl+50])
+        # search the whole statement when its last line is known
+        last = sl + 50 if end_line is None else max(sl + 50, end_line)
+        source = '\n'.join(self.source.lines[sl-1:last])
         source_len = len(source)
         while True:
             pos = source.find(id, pos + 1)
